@@ -47,9 +47,11 @@ TVehRead == /\ IsEvent("VehRead") /\ Same
 TVehBox == /\ IsEvent("VehBox") /\ Same
            /\ \A b0 \in {E.lo[1], E.hi[1]}, b1 \in {E.lo[2], E.hi[2]}, b2 \in {E.lo[3], E.hi[3]}, b3 \in {E.lo[4], E.hi[4]} :
                  VehClassTree(<<b0, b1, b2, b3>>) = E.cls
-           \* the box does not straddle a class boundary of the rule: no byte range crosses an alphanumeric edge or 0
-           /\ \A p \in 1..3 : E.lo[p] = E.hi[p] \/ (\A c \in E.lo[p]..E.hi[p] : IsAlnum(c) = IsAlnum(E.lo[p]) /\ (c = 0) = (E.lo[p] = 0))
-           /\ (E.lo[4] = E.hi[4] \/ E.lo[4] > 0)
+           \* the box lies inside one region of the rule: either its last byte is never 0 (then everything in it is a mod id), or
+           \* the last byte is 0 throughout and no byte range crosses an alphanumeric edge or mixes 0 with non-0
+           /\ \/ E.lo[4] > 0
+              \/ /\ E.lo[4] = 0 /\ E.hi[4] = 0
+                 /\ \A p \in 1..3 : E.lo[p] = E.hi[p] \/ (\A c \in E.lo[p]..E.hi[p] : IsAlnum(c) = IsAlnum(E.lo[p]) /\ (c = 0) = (E.lo[p] = 0))
            /\ (E.cls \in {"std", "error"} => E.lo = E.hi)
            /\ E.rt_ok
 
